@@ -28,13 +28,13 @@ MCPol ==
  @@ "M3" :> ([rules |-> [main |-> <<[pr |-> P, thr |-> 3]>>, feat |-> <<>>]] @@ NoGlobal)
  @@ "T0" :> ([rules |-> [main |-> <<[pr |-> {"p1"}, thr |-> 1]>>, feat |-> <<>>]] @@ NoGlobal)
 
-PolIds == CASE Family = "merge" -> {"A", "C", "M3", "T"} [] Family \in {"window", "tworec"} -> {"A", "B"} [] Family = "approvals" -> {"R"} [] Family = "nopolicy" -> {"A"} [] Family = "chain" -> {"A", "B"} [] Family = "global" -> {"A", "G", "H", "T"} [] Family = "recovery" -> {"A", "B"} [] OTHER -> {"A", "B", "C"}
-MainSigners == CASE Family = "merge" -> {"p1"} [] Family \in {"window", "tworec"} -> {"p1", "p3"} [] Family = "approvals" -> {"p1", "kU"} [] Family = "chain" -> {"p1", "p3"} [] Family = "global" -> {"p1", "p3", "kU"} [] Family = "recovery" -> {"p1", "p3"} [] OTHER -> {"p1", "p2", "p3", "kU", "none"}
+PolIds == CASE Family = "merge" -> {"A", "C", "M3", "T"} [] Family \in {"window", "tworec"} -> {"A", "B"} [] Family \in {"approvals", "apprskip", "apprlate"} -> {"R"} [] Family = "nopolicy" -> {"A"} [] Family = "chain" -> {"A", "B"} [] Family = "global" -> {"A", "G", "H", "T"} [] Family = "recovery" -> {"A", "B"} [] OTHER -> {"A", "B", "C"}
+MainSigners == CASE Family = "merge" -> {"p1"} [] Family \in {"window", "tworec"} -> {"p1", "p3"} [] Family \in {"approvals", "apprskip", "apprlate"} -> {"p1", "kU"} [] Family = "chain" -> {"p1", "p3"} [] Family = "global" -> {"p1", "p3", "kU"} [] Family = "recovery" -> {"p1", "p3"} [] OTHER -> {"p1", "p2", "p3", "kU", "none"}
 
 PrevOf(l, r) == LET S == {j \in 1..Len(l) : IsFor(l[j], r)} IN IF S = {} THEN 0 ELSE Max(S)
 RefEntries(l) ==
     {[k |-> "ref", ref |-> "main", s |-> s, tree |-> t, par |-> pr] : s \in MainSigners, t \in {1, 2},
-                                                                  pr \in (IF Family \in {"window", "tworec"} THEN {PrevOf(l, "main")} ELSE {0, PrevOf(l, "main")})}
+                                                                  pr \in (IF Family \in {"window", "tworec", "apprskip", "apprlate"} THEN {PrevOf(l, "main")} ELSE {0, PrevOf(l, "main")})}
     \cup {[k |-> "ref", ref |-> "feat", s |-> s, tree |-> 1, par |-> PrevOf(l, "feat")] : s \in {"p3", "kU"}}
 PropEntries(l) == IF Family = "core" THEN {[k |-> "prop", ref |-> "main", s |-> s, tree |-> 2, par |-> PrevOf(l, "main")] : s \in {"p1", "kU"}} ELSE {}
 AnnEntries(l) == LET R == {i \in 1..Len(l) : l[i].k = "ref"} IN
@@ -45,8 +45,11 @@ Cr(r, f, t, sr, sf, st, app, signer, ap) == [ref |-> r, from |-> f, tree |-> t, 
                                              signer |-> signer, approvers |-> ap, dismissed |-> {}]
 AttEntries(l) ==
     IF Family \in {"recovery", "chain", "window", "tworec"} THEN {}
-    ELSE IF Family = "approvals" THEN
-         LET f == PrevOf(l, "main") IN
+    ELSE IF Family \in {"approvals", "apprskip", "apprlate"} THEN
+         LET f == PrevOf(l, "main")
+             pm == IF f = 0 THEN 0 ELSE PrevOf(SubSeq(l, 1, f - 1), "main")      \* the entry before the latest one
+             Late(by) == App("main", pm, l[f].tree, "main", pm, l[f].tree, by)    \* an approval of the change the latest entry already made
+         IN
          \* authorizations and code-review approvals for the next change of main (tree 1 or 2), stored at the matching path or at
          \* the path of the other tree, with statements naming either; signed by trusted / untrusted keys
          {[k |-> "att", apps |-> {App("main", f, t, "main", f, st, by)}, crs |-> {}] : t \in {1, 2}, st \in {1, 2}, by \in {{"p2"}, {"kU"}}}
@@ -54,6 +57,10 @@ AttEntries(l) ==
                    t \in {1, 2}, st \in {1, 2}, app \in {"appT", "appU"}, sg \in {"appkey", "kU"}, ap \in {{"p2"}, {"p1", "p2"}}}
          \cup {[k |-> "att", apps |-> {App("main", f, 1, "main", f, 1, {"p2"})}, crs |-> {Cr("main", f, 1, "main", f, 1, "appT", "appkey", {"p2", "p3"})}]}
          \cup {[k |-> "att", apps |-> {App("main", f, 1, "feat", f, 1, {"p2"})}, crs |-> {}], [k |-> "att", apps |-> {App("main", f, 1, "main", 0, 1, {"p2"})}, crs |-> {}]}
+         \cup (IF Family = "apprlate" /\ f # 0
+               THEN {[k |-> "att", apps |-> {Late({"p2"})}, crs |-> {}]}
+                    \cup {[k |-> "att", apps |-> {Late({"p2"}), App("main", f, t, "main", f, t, {"p2"})}, crs |-> {}] : t \in {1, 2}}
+               ELSE {})
     ELSE IF Family = "merge" THEN
          {[k |-> "att", apps |-> {App("main", PrevOf(l, "main"), t, "main", PrevOf(l, "main"), t, by)}, crs |-> {}] :
               t \in {1, 2}, by \in {{"p1"}, {"p2"}, {"p2", "p3"}, {"p1", "p2", "p3"}, {"kU"}}}
@@ -67,18 +74,21 @@ OtherEntries(l) == {[k |-> "pol", v |-> v, cv |-> c, sv |-> x] : v \in PolIds, c
 \* recovery loop affordable ("window": policy change between a revoked violation and its fix; "tworec": two recoveries)
 Shape == CASE Family = "window" -> <<"ref", "ref", "annpol", "annpol", "ref", "ref">>
            [] Family = "tworec" -> <<"ref", "ref", "ref", "ref", "ref", "ann", "ref">>
+           [] Family = "apprskip" -> <<"att", "ref", "ann", "ref">>          \* an approved entry is revoked and its change submitted again
+           [] Family = "apprlate" -> <<"ref", "att", "ref">>                 \* approvals recorded after the entry they would have authorised
            [] OTHER -> <<>>
-Shaped == Family \in {"window", "tworec"}
+Shaped == Family \in {"window", "tworec", "apprskip", "apprlate"}
 ShapeAt(l) == Shape[Len(l)]          \* position Len(l)+1 of the log is position Len(l) of the shape (after the initial policy)
 FullAlphabet(l) == RefEntries(l) \cup PropEntries(l) \cup AnnEntries(l) \cup AttEntries(l) \cup OtherEntries(l)
 Alphabet(l) == IF ~Shaped THEN FullAlphabet(l)
                ELSE IF Len(l) > Len(Shape) THEN {}
                ELSE {e \in FullAlphabet(l) : CASE ShapeAt(l) = "ref" -> e.k = "ref" /\ e.ref = "main"
                                                 [] ShapeAt(l) = "ann" -> e.k = "ann"
+                                                [] ShapeAt(l) = "att" -> e.k = "att"
                                                 [] ShapeAt(l) = "annpol" -> e.k \in {"ann", "pol"}
                                                 [] OTHER -> FALSE}
 
-Init == log \in (IF Family = "nopolicy" THEN {<<>>} ELSE {<<[k |-> "pol", v |-> (IF Family = "approvals" THEN "R" ELSE "A"), cv |-> TRUE, sv |-> TRUE]>>})
+Init == log \in (IF Family = "nopolicy" THEN {<<>>} ELSE {<<[k |-> "pol", v |-> (IF Family \in {"approvals", "apprskip", "apprlate"} THEN "R" ELSE "A"), cv |-> TRUE, sv |-> TRUE]>>})
 Next == /\ Len(log) < MaxLen
         /\ \E e \in Alphabet(log) : log' = Append(log, e)
 Spec == Init /\ [][Next]_log
@@ -130,7 +140,8 @@ PolJson == [v \in PolIds \cup {Strip[x] : x \in PolIds} |-> [rules |-> [r \in Re
 Emit == IF Len(log) <= 1 /\ (log = <<>> \/ log[1].k = "pol")
         THEN PrintT(ToJson([t |-> "POL", pol |-> PolJson, strip |-> [v \in PolIds |-> Strip[v]]]))
         ELSE IF Len(log) >= 2 /\ (\E r \in Refs : HasEntries(log, r))
-           /\ ((Interesting /\ Weight % 7 = EmitRes % 7) \/ Weight % EmitMod = EmitRes \/ WindowCase \/ TwoRecoveries)
+           /\ ((Interesting /\ Weight % 7 = EmitRes % 7) \/ Weight % EmitMod = EmitRes \/ WindowCase \/ TwoRecoveries
+               \/ (Family \in {"apprskip", "apprlate"} /\ Len(log) = Len(Shape) + 1))
         THEN PrintT(ToJson([t |-> "SCN", fam |-> Family, log |-> [i \in DOMAIN log |-> Norm(log[i])]]))
         ELSE TRUE
 =============================================================================
